@@ -101,7 +101,10 @@ fn tamper_every_leaf_with(r: &mut Report, kind: &str, owner: PrivateKey) {
     // each string carries exactly ONE kind of special character, so that a writer with a "nothing to escape here" shortcut is exercised too
     let step = Step::new("build tab\there").threshold(2).add_key(f.key_id().clone())
         .add_expected_material(ArtifactRule::Match { pattern: p("src/*"), in_src: Some("cr\rx".into()), with: Artifact::Products, in_dst: Some("crlf\r\nMixedCase".into()), from: "fetch".into() })
-        .add_expected_product(ArtifactRule::Create(p("back\\slash"))).add_expected_product(ArtifactRule::Disallow(p("*")))
+        .add_expected_product(ArtifactRule::Create(p("back\\slash")))
+        .add_expected_product(ArtifactRule::Match { pattern: p("out/*"), in_src: None, with: Artifact::Materials, in_dst: None, from: "fetch".into() })
+        .add_expected_product(ArtifactRule::Match { pattern: p("e/*"), in_src: Some("".into()), with: Artifact::Products, in_dst: Some("".into()), from: "fetch".into() })
+        .add_expected_product(ArtifactRule::Disallow(p("*")))
         .expected_command(cmd(&["sh", "-c", "quo\"te"]));
     let insp = Inspection::new("check").run(cmd(&["sh", "-c", "echo one\necho two"])).add_expected_material(ArtifactRule::Allow(p("*")));
     let l = LayoutMetadataBuilder::new().expires({ use chrono::TimeZone; chrono::Utc.timestamp_opt(chrono::Utc::now().timestamp() + 86400, 0).unwrap() })
@@ -126,6 +129,7 @@ fn tamper_every_leaf_with(r: &mut Report, kind: &str, owner: PrivateKey) {
         match cur {
             serde_json::Value::String(s) => {
                 variants.push(json!(format!("{}x", s)));
+                if !s.is_empty() { variants.push(json!("")); }
                 // changes that a "normalising" signer or verifier would not notice: case, surrounding blanks, line-end style, path spelling
                 for v in [s.to_lowercase(), s.to_uppercase(), format!("{} ", s), format!(" {}", s), s.trim().to_string(), s.replace("\r\n", "\n"), s.replace('\n', "\r\n"), s.replace('\r', ""),
                           format!("./{}", s), format!("{}/", s), s.replacen('/', "//", 1), s.replace("//", "/")] { if &v != s { variants.push(json!(v)); } }
@@ -136,7 +140,20 @@ fn tamper_every_leaf_with(r: &mut Report, kind: &str, owner: PrivateKey) {
             }
             serde_json::Value::Number(x) => { variants.push(json!(x.as_i64().unwrap_or(0) + 1)); variants.push(json!(0)); }
             serde_json::Value::Bool(b) => variants.push(json!(!b)),
-            serde_json::Value::Array(a) => { let mut b = a.clone(); if let Some(x) = b.pop() { variants.push(json!(b.clone())); b.push(x.clone()); b.push(x); variants.push(json!(b)); } }
+            serde_json::Value::Array(a) => { let mut b = a.clone(); if let Some(x) = b.pop() { variants.push(json!(b.clone())); b.push(x.clone()); b.push(x); variants.push(json!(b)); }
+                // optional clauses of a MATCH rule: an (empty or non-empty) IN clause added, emptied or removed on either side
+                if a.first().and_then(|x| x.as_str()).map(|x| x.eq_ignore_ascii_case("MATCH")).unwrap_or(false) {
+                    let strs: Vec<String> = a.iter().map(|x| x.as_str().unwrap_or("").to_string()).collect();
+                    for (i, w) in strs.iter().enumerate() {
+                        if w == "IN" && i + 1 < strs.len() {
+                            let mut e = strs.clone(); e[i + 1] = String::new(); variants.push(json!(e));
+                            let mut rm = strs.clone(); rm.drain(i..i + 2); variants.push(json!(rm));
+                        }
+                        if (w == "WITH" && (i < 2 || strs[i - 2] != "IN")) || (w == "FROM" && (i < 2 || strs[i - 2] != "IN")) {
+                            for pre in ["", "p"] { let mut ins = strs.clone(); ins.insert(i, pre.to_string()); ins.insert(i, "IN".to_string()); variants.push(json!(ins)); }
+                        }
+                    }
+                } }
             _ => {}
         }
         for v in variants {
@@ -321,6 +338,34 @@ pub fn run_c04(r: &mut Report) {
         r.case(c.id, json!({"threshold": c.t, "keys": c.keys.len(), "signatures": c.mb.signatures.len()}),
                if c.expect { "Ok(metadata)" } else { "Err" }, format!("{:?}", res.map(|v| v.map(|_| "Ok").map_err(|e| e.to_string()))), ok);
     }
+    // entries labelled with a near-variant of an authorised key's id (other case, blanks, one digit changed) are entries of an
+    // unknown key: they neither add to the count nor displace the genuine entry, in either order
+    {
+        let genuine = sign(&[&k1]);
+        let g = serde_json::to_value(&genuine.signatures[0]).unwrap();
+        let id = g["keyid"].as_str().unwrap().to_string();
+        let flip = |s: &str, i: usize| -> String { s.chars().enumerate().map(|(j, c)| if j == i { if c == '0' { '1' } else { '0' } } else { c }).collect() };
+        let mixed: String = id.chars().enumerate().map(|(j, c)| if j % 2 == 0 { c.to_ascii_uppercase() } else { c }).collect();
+        for (what, label) in [("upper case", id.to_ascii_uppercase()), ("mixed case", mixed), ("last digit changed", flip(&id, 63)), ("first digit changed", flip(&id, 0))] {
+            if label == id { continue; }
+            for junk_sig in [true, false] {
+                let sigv = if junk_sig { json!("00".repeat(64)) } else { g["sig"].clone() };
+                let entry = json!({"keyid": label, "sig": sigv});
+                let parsed: Result<in_toto::crypto::Signature, _> = serde_json::from_value(entry.clone());
+                let stray = match parsed { Ok(s) => s, Err(_) => continue };   // a reader may refuse such an id outright
+                for stray_first in [true, false] {
+                    let mut m = genuine.clone();
+                    if stray_first { m.signatures.insert(0, stray.clone()); } else { m.signatures.push(stray.clone()); }
+                    let res = no_panic(|| m.verify(1, [k1.public()]));
+                    r.case("near-variant-key-id-entries", json!({"label": what, "stray_signature": if junk_sig { "junk" } else { "copy of the genuine one" }, "stray_first": stray_first, "threshold": 1}), "Ok (the genuine entry counts)",
+                           format!("{:?}", res.as_ref().map(|v| v.as_ref().map(|_| "Ok").map_err(|e| e.to_string()))), matches!(&res, Ok(Ok(_))));
+                    let res2 = no_panic(|| m.verify(2, [k1.public(), k2.public()]));
+                    r.case("near-variant-key-id-entries", json!({"label": what, "stray_signature": if junk_sig { "junk" } else { "copy of the genuine one" }, "stray_first": stray_first, "threshold": 2}), "Err (one key signed)",
+                           format!("{:?}", res2.as_ref().map(|v| v.as_ref().map(|_| "Ok").map_err(|e| e.to_string()))), matches!(&res2, Ok(Err(_))));
+                }
+            }
+        }
+    }
     // key material x declared scheme: a key is checked under its DECLARED scheme; a signature made under the scheme that fits the
     // material, re-attributed to a key that declares another scheme, is not a valid signature of that key
     {
@@ -417,6 +462,13 @@ pub fn agreement_matrix(r: &mut Report, repetitions: usize, tag: &str) {
         ("product-omitted", vec![("m", 1)], vec![("p", 2)]),
         ("product-added", vec![("m", 1)], vec![("p", 2), ("q", 5), ("x", 7)]),
         ("material-omitted", vec![], vec![("p", 2), ("q", 5)]),
+        // the same digest under a path that is spelled differently is a different artifact entry (paths are compared as recorded)
+        ("product-path-dot-slash", vec![("m", 1)], vec![("./p", 2), ("q", 5)]),
+        ("product-path-via-dotdot", vec![("m", 1)], vec![("p", 2), ("x/../q", 5)]),
+        ("product-path-double-slash", vec![("m", 1)], vec![("p", 2), (".//q", 5)]),
+        ("material-path-dot-slash", vec![("./m", 1)], vec![("p", 2), ("q", 5)]),
+        ("product-path-other-case", vec![("m", 1)], vec![("P", 2), ("q", 5)]),
+        ("product-path-trailing-blank", vec![("m", 1)], vec![("p ", 2), ("q", 5)]),
     ];
     for n in 2..=5usize {
         for pos in 0..n {
